@@ -541,7 +541,7 @@ struct C18World: World {
         case A_REFUSED: { int t = 0; const double bad[] = { -1.0, std::numeric_limits<double>::quiet_NaN(), std::numeric_limits<double>::infinity() };
           for (double wb : bad) { try { n.sk->update(static_cast<int64_t>(-5), wb); } catch (const std::invalid_argument&) { t++; } }
           ctx.require(t == 3, "C18|invalid-weight-not-refused", std::to_string(t)); ctx.fault("refused_op"); break; }
-        case A_RESET: { n.sk->reset(); uint32_t kk = n.k; n = Node(); n.k = kk; n.sk.reset(new S(kk, talloc<int64_t>(1))); break; }
+        case A_RESET: { n.sk->reset(); std::unique_ptr<S> keep = std::move(n.sk); uint32_t kk = n.k; n = Node(); n.k = kk; n.sk = std::move(keep); break; }   // the reset object itself is used again: it must behave as a fresh one
         case A_COPY: { Node& d = nodes[static_cast<size_t>(s.b) % nodes.size()]; if (&d != &n) { std::unique_ptr<S> c(new S(*n.sk)); d = Node(); d.sk = std::move(c); d.ids = n.ids; d.cum = n.cum; d.maxw = n.maxw; d.n = n.n; d.equal_weights = n.equal_weights; d.w0 = n.w0; d.k = n.k; d.may_dup = n.may_dup; d.merged = n.merged; } break; }
         default: break;
       }
@@ -686,11 +686,15 @@ struct C16StatWorld: World {
 
 // ================================================================== C20 density
 template<typename T> struct gauss { template<typename V1, typename V2> T operator()(const V1& a, const V2& b) const { double acc = 0; for (size_t i = 0; i < a.size(); i++) { double d = static_cast<double>(a[i]) - static_cast<double>(b[i]); acc += d * d; } return static_cast<T>(std::exp(-acc)); } };
-template<typename T> struct laplace { template<typename V1, typename V2> T operator()(const V1& a, const V2& b) const { double acc = 0; for (size_t i = 0; i < a.size(); i++) acc += std::fabs(static_cast<double>(a[i]) - static_cast<double>(b[i])); return static_cast<T>(1.0 / (1.0 + acc)); } };
+// a user kernel with state: the instance handed to the constructor (scale 0.25) differs from a default-constructed one (scale 1), and is the one that must be used
+template<typename T> struct laplace { double scale; laplace(): scale(1.0) {} explicit laplace(double s_): scale(s_) {}
+  template<typename V1, typename V2> T operator()(const V1& a, const V2& b) const { double acc = 0; for (size_t i = 0; i < a.size(); i++) acc += std::fabs(static_cast<double>(a[i]) - static_cast<double>(b[i])); return static_cast<T>(1.0 / (1.0 + scale * acc)); } };
+template<typename K> struct kernel_instance { static K make() { return K(); } };
+template<typename T> struct kernel_instance<laplace<T>> { static laplace<T> make() { return laplace<T>(0.25); } };
 template<typename T, typename K> struct DnExec {
   typedef ds::density_sketch<T, K, talloc<T>> S; typedef typename S::Vector V;
   struct Node { std::unique_ptr<S> sk; std::vector<std::vector<T>> pts; bool merged = false; };   // merged: a merge is part of this sketch's history (a merge may compact earlier)
-  Ctx& ctx; const Plan& p; std::string fam; uint16_t k; uint32_t dim;
+  Ctx& ctx; const Plan& p; std::string fam; uint16_t k; uint32_t dim; K kern = kernel_instance<K>::make();
   DnExec(Ctx& c, const Plan& pl, const char* f): ctx(c), p(pl), fam(f) { k = static_cast<uint16_t>(p.cfg[2]); dim = static_cast<uint32_t>(p.cfg[3]); }
   std::string fp(const char* cls) const { return "C20|" + fam + "|" + cls; }
   std::vector<T> point(i64 v) const { std::vector<T> x(dim); for (uint32_t i = 0; i < dim; i++) { u64 s = static_cast<u64>(v * 4 + i); x[i] = static_cast<T>(static_cast<double>(splitmix64(s) % 4096) / 1024.0 - 2.0); } return x; }
@@ -711,7 +715,7 @@ template<typename T, typename K> struct DnExec {
     const bool compacted = n.pts.size() > cnt || any_heavy;
     if (compacted) ctx.require(s.is_estimation_mode(), fp("estimation-mode-false-after-compaction").c_str(), w);
     if (n.pts.empty()) { bool t = false; try { s.get_estimate(point(1)); } catch (const std::exception&) { t = true; } ctx.require(t, fp("empty-sketch-estimate-not-rejected").c_str(), w); return; }
-    K kernel;
+    const K& kernel = kern;
     for (int q = 0; q < 3; q++) { std::vector<T> qp = point(salt + q * 1000 + 77); const T e = s.get_estimate(qp);
       ctx.require(std::isfinite(e) && e >= 0, fp("estimate-not-finite-nonnegative").c_str(), hexd(e) + w);
       if (!s.is_estimation_mode()) { double acc = 0; for (auto& x : n.pts) acc += static_cast<double>(kernel(x, qp)); acc /= static_cast<double>(n.pts.size());
@@ -721,7 +725,7 @@ template<typename T, typename K> struct DnExec {
   void run() {
     SimRandom rnd(p.run_seed); rnd.bit_mode = static_cast<int>(p.cfg[4]) & 3; RandomScope rs(rnd);
     if (rnd.bit_mode) ctx.fault("coin_adversary");
-    std::vector<Node> nodes(3); for (Node& n : nodes) n.sk.reset(new S(k, dim, K(), talloc<T>(1)));
+    std::vector<Node> nodes(3); for (Node& n : nodes) n.sk.reset(new S(k, dim, kern, talloc<T>(1)));
     int idx = 0; i64 next = 0;
     for (const Step& s : p.steps) {
       ctx.begin_step(idx++, s.kind);
@@ -732,8 +736,8 @@ template<typename T, typename K> struct DnExec {
           if (s.c & 1) { S tmp(*src.sk); n.sk->merge(std::move(tmp)); } else n.sk->merge(*src.sk);
           n.pts.insert(n.pts.end(), src.pts.begin(), src.pts.end()); n.merged = true; ctx.nontrivial = true; ctx.probe("merge"); break; }
         case A_SERDE: { auto b = n.sk->serialize();
-          if (s.c & 2) n.sk.reset(new S(restore_stream(ctx, b, s.c, "C20", [&](std::istream& is) { return S::deserialize(is, K(), talloc<T>(1)); })));
-          else n.sk.reset(new S(S::deserialize(b.data(), b.size(), K(), talloc<T>(1)))); ctx.fault("checkpoint_restore"); break; }
+          if (s.c & 2) n.sk.reset(new S(restore_stream(ctx, b, s.c, "C20", [&](std::istream& is) { return S::deserialize(is, kern, talloc<T>(1)); })));
+          else n.sk.reset(new S(S::deserialize(b.data(), b.size(), kern, talloc<T>(1)))); ctx.fault("checkpoint_restore"); break; }
         case A_REFUSED: {
           // half of the refusals are placed on the capacity boundary: the sketch is topped up to exactly k points first
           if ((s.c & 4) && !n.merged && n.pts.size() < k) { while (n.pts.size() < k) { std::vector<T> x = point(s.b * 100000 + next++); V v0(x.begin(), x.end(), talloc<T>(1)); n.sk->update(v0); n.pts.push_back(x); } ctx.probe("refusal_on_capacity_boundary"); }
@@ -744,7 +748,7 @@ template<typename T, typename K> struct DnExec {
           const std::string before = snapshot();
           std::vector<T> bad(dim + 1, static_cast<T>(1)); V v(bad.begin(), bad.end(), talloc<T>(1)); bool t = false; try { n.sk->update(v); } catch (const std::invalid_argument&) { t = true; }
           const std::string after_update = snapshot();
-          S other(k, dim + 1, K(), talloc<T>(1)); other.update(v); bool t2 = false; try { n.sk->merge(other); } catch (const std::invalid_argument&) { t2 = true; }
+          S other(k, dim + 1, kern, talloc<T>(1)); other.update(v); bool t2 = false; try { n.sk->merge(other); } catch (const std::invalid_argument&) { t2 = true; }
           ctx.require(t && t2, fp("wrong-dimension-not-refused").c_str(), std::to_string(t) + std::to_string(t2));
           if (after_update != before) ctx.fail(fp("refused-update-changed-the-sketch"), "before " + before.substr(0, 60) + " after " + after_update.substr(0, 60));
           if (snapshot() != before) ctx.fail(fp("refused-merge-changed-the-sketch"), "");
